@@ -3,7 +3,7 @@
 usage: ingest.py <scratch dir> <Cxx> <x>...     e.g. ingest.py /scratch/mut2 C01 c d
 Paths of the scratch worktree inside the demo are rewritten to the current directory (seedtest runs the demo
 with cwd = PYTHONPATH = the worktree under test)."""
-import json, sys
+import json, os, sys
 from pathlib import Path
 VERIF = Path(__file__).resolve().parents[1]
 src, pid, xs = Path(sys.argv[1]), sys.argv[2], sys.argv[3:]
@@ -17,6 +17,6 @@ for x in xs:
     try: m = json.loads(Path(str(base) + '.json').read_text())
     except Exception as e: m = dict(summary='(unreadable json: %s)' % e)
     meta = dict(property=pid, summary=m.get('summary'), needs=m.get('needs'), failing_input=m.get('failing_input'),
-                origin='round 2: written by an independent sub-agent that saw only the property text and a scratch worktree', confirmed=None)
+                origin=os.environ.get('SEED_ORIGIN','written by an independent sub-agent that saw only the property text and a scratch worktree'), confirmed=None)
     (d / 'meta.json').write_text(json.dumps(meta, indent=1, ensure_ascii=False))
     print('ingested', d.name)
